@@ -22,10 +22,13 @@ Past methods, and associated lessons include:
 
 """
 
+import os
 import inspect
 from pathlib import Path
 from types import ModuleType, FrameType
 from typing import Optional
+
+import pydantic
 
 from .datatype import datatype, AllowArbConfig
 
@@ -63,7 +66,7 @@ def source_info(get_pymodule: bool = False) -> Optional[SourceInfo]:
     for _ in range(MAX_DEPTH):
         if frame is None:
             return None
-        if frame.f_code.co_filename not in files_to_skip:
+        if not _skipped(frame.f_code.co_filename):
             # We've got a hit! Return a `SourceInfo` object.
 
             # If requested via the `get_pymodule` flag, return the Python module.
@@ -81,6 +84,16 @@ def source_info(get_pymodule: bool = False) -> Optional[SourceInfo]:
     # If we got here without returning, we failed.
     raise RecursionError("Error finding `SourceDetail`")
 
+
+def _skipped(filename: str) -> bool:
+    """Boolean indication of whether stack-frames from `filename` are skipped over.
+    These are our own object-creating files, and those of `pydantic`:
+    `ExternalModule` and `Generator` are pydantic dataclasses, created by way of pydantic's `__init__`."""
+    return filename in files_to_skip or filename.startswith(_pydantic_dir)
+
+
+# Directory of the `pydantic` package
+_pydantic_dir = os.path.dirname(pydantic.__file__) + os.sep
 
 # Set of files to skip
 # Calculated once, after import-time, so those modules can import this one.
